@@ -65,9 +65,9 @@ class ShortLinkControl(BitsInterface):
         ), f"Expected at least 36 bits (including 8-bit CRC), got {len(bits)}"
         slco: SLCOs = SLCOs.from_bits(bits[:4])
         if slco == SLCOs.NullMessage:
-            return ShortLinkControl(slco=slco, crc_8bit=bits[28:36])
+            short_lc = ShortLinkControl(slco=slco, crc_8bit=bits[28:36])
         elif slco == SLCOs.ActivityUpdate:
-            return ShortLinkControl(
+            short_lc = ShortLinkControl(
                 slco=slco,
                 crc_8bit=bits[28:36],
                 ts1_activity_id=ActivityID.from_bits(bits[4:8]),
@@ -75,8 +75,15 @@ class ShortLinkControl(BitsInterface):
                 ts1_address=bits[12:20],
                 ts2_address=bits[20:28],
             )
+        else:
+            raise KeyError(f"from_bits not implemented for {slco}")
 
-        raise KeyError(f"from_bits not implemented for {slco}")
+        if ba2int(bits[28:36]):
+            # check the bits as received, reserved activity ids are folded and would be checked as such
+            short_lc.crc_ok = CRC8.check(
+                bits[:28], ba2int(bitarray(bits[28:36].tolist()[::-1]))
+            )
+        return short_lc
 
     def as_bits(self) -> bitarray:
         if self.slco == SLCOs.NullMessage:
